@@ -10,7 +10,12 @@ from harness import core
 b = core.prepare()
 print("translator:", b.translator)
 print("make ok:", b.make_ok, "driver ok:", b.driver_ok, "failed:", b.failed, "wall", round(b.wall, 1))
-if not (b.make_ok and b.driver_ok):
-    print(b.make_log[-4000:])
+if not b.make_ok:
+    # a .v file that no longer compiles is a broken proof obligation: it is reported (with a failing-input search) by the
+    # checks of exactly the properties whose theorems depend on it, not by the setup
+    print("files that did not compile:", b.failed)
+    print(b.make_log[-3000:])
+if not b.driver_ok:
+    print("the executable model could not be built")
     sys.exit(1)
 PY
